@@ -45,6 +45,12 @@ void vnacal_free(vnacal_t *vcp)
 	}
 	(void)vnaproperty_delete(&vcp->vc_properties, ".");
 	assert(vcp->vc_properties == NULL);
+	for (int ci = 0; ci < vcp->vc_calibration_allocation; ++ci) {
+	    _vnacal_calibration_free(vcp->vc_calibration_vector[ci]);
+	}
+	free((void *)vcp->vc_calibration_vector);
+	vcp->vc_calibration_vector = NULL;
+	vcp->vc_calibration_allocation = 0;
 	_vnacal_teardown_parameter_collection(vcp);
 	vcp->vc_magic = -1;
 	free((void *)vcp->vc_filename);
